@@ -295,3 +295,580 @@ class C15A(EngineBase):
                 if not stats.get(k):
                     probs.append(f"c15a: reach probe {k} is zero")
         return probs
+
+
+# ======================================================================
+# c15b — crash-point simulation of the default-mode context manager
+# ======================================================================
+
+MODES = ["auto", "fused", "blockwise"]
+CM_FRAMES = {"default_tensordot_mode", "get_default_tensordot_mode",
+             "set_default_tensordot_mode"}
+
+
+class UserError(Exception):
+    """An ordinary exception raised by user code inside the with-body."""
+
+
+class C15B(EngineBase):
+    prop = "C15"
+    name = "c15b"
+    share = 0.15
+    chunk = 20
+
+    def make_config(self, streams, tier):
+        r = streams.get("config")
+        depth = r.choice([1, 1, 2, 3])
+        exitk = r.choice(["crash", "crash", "crash", "exception", "return", "break", "normal"])
+        return {
+            "outer": r.choice(MODES),
+            "outer_none": r.random() < 0.3,
+            "nest": [r.choice(MODES) for _ in range(depth)],
+            "exit": exitk,
+            "exit_at": r.randint(0, 3),
+            "crash": r.random(),
+            "all_points": tier == "thorough" and exitk == "crash" and r.random() < 0.5,
+            "inner_set": r.choice([None, None, "fused", "blockwise"]),
+            "kinds": r.choice([["A"], ["F"], ["A", "F"]]),
+            "syms": r.choice([["Z2"], ["U1"], ["Z2Z2"], ["U1U1"]]),
+            "sparsity": r.choice([0.0, 0.3]),
+            "n_macro": r.choice([2, 3, 4]),
+        }
+
+    def start(self, config):
+        core.world_reset()
+        st = State()
+        st.config = config
+        st.heap = {}
+        st.ctx = None
+        st.body = []
+        return st
+
+    def gen_macro(self, st, rng):
+        cfg = st.config
+        if st.ctx is None:
+            st.ctx = ops.Ctx(rng, kinds=tuple(cfg["kinds"]), syms=tuple(cfg["syms"]),
+                             p_inplace=0.0, sparsity=cfg["sparsity"], styles=False)
+        ctx = st.ctx
+        out = []
+        # one body call: mostly a contraction with mode=None, built on fresh operands
+        k = rng.random()
+        if k < 0.7 or not st.heap:
+            steps = ops.g_tensordot(ctx, st.heap) if st.heap else None
+            if not steps:
+                return ops.g_new(ctx, st.heap)
+            steps[-1]["a"]["mode"] = None
+            steps[-1]["a"].pop("preserve_array", None)
+        elif k < 0.85:
+            steps = ops.g_fuse(ctx, st.heap) or ops.g_new(ctx, st.heap)
+        else:
+            steps = ops.g_reshape(ctx, st.heap) or ops.g_new(ctx, st.heap)
+        for s in steps[:-1]:
+            out.append(s)
+        last = dict(steps[-1])
+        if last["op"] not in ("new", "newvec"):
+            last["body"] = True
+        out.append(last)
+        return out
+
+    def exec_step(self, st, step):
+        if step.get("body"):
+            st.body.append(step)
+            return
+        if any(n not in st.heap for n in step.get("in", [])):
+            return
+        try:
+            res = ops.run_step(step, st.heap)
+        except HarnessError:
+            raise
+        except Exception:  # noqa: BLE001
+            return
+        ops.bind(step, st.heap, res)
+
+    # ---------------------------------------------------------- scenario
+    def _scenario(self, st, checks):
+        """Runs the nested-with scenario; ``checks`` collects oracle failures
+        as (where, detail). Propagating exceptions are returned."""
+        cfg = st.config
+        modes = cfg["nest"]
+        heap = dict(st.heap)
+        body = [s for s in st.body if all(n in heap for n in s.get("in", []))]
+        get = core.sr.get_default_tensordot_mode
+
+        def run_body():
+            for i, s in enumerate(body):
+                if cfg["exit"] == "exception" and i == min(cfg["exit_at"], len(body) - 1):
+                    raise UserError("user code failed")
+                if cfg["exit"] in ("return", "break") and i == min(cfg["exit_at"], len(body) - 1):
+                    return "early"
+                try:
+                    res = ops.run_step(s, heap)
+                except (core.SimCrash, HarnessError):
+                    raise
+                except Exception:  # noqa: BLE001 - raising library call is not our business here
+                    continue
+                if s["op"] == "tensordot" and s["a"].get("mode", 0) is None:
+                    cur = get()
+                    s2 = copy.deepcopy(s)
+                    s2["a"]["mode"] = cur
+                    try:
+                        res2 = ops.run_step(s2, heap)
+                    except (core.SimCrash, HarnessError):
+                        raise
+                    except Exception:  # noqa: BLE001
+                        checks.append(("mode-none-equals-explicit",
+                                       f"mode=None ok but mode={cur} raised"))
+                        continue
+                    why = S.snap_close(S.snap(res), S.snap(res2))
+                    if why:
+                        checks.append(("mode-none-equals-explicit",
+                                       f"mode=None under default {cur} differs from explicit: {why}"))
+                    st.stats["oracle.mode_none_compared"] += 1
+            if cfg["inner_set"] is not None:
+                core.sr.set_default_tensordot_mode(cfg["inner_set"])
+            return "done"
+
+        def nested(level):
+            before = get()
+            try:
+                if cfg["exit"] == "break":
+                    for _ in range(1):
+                        with core.sr.default_tensordot_mode(modes[level]):
+                            if get() != modes[level]:
+                                checks.append(("mode-inside-block", f"level {level}: {get()} != {modes[level]}"))
+                            if level + 1 < len(modes):
+                                nested(level + 1)
+                                if get() != modes[level]:
+                                    checks.append(("mode-restored-after-inner-exit",
+                                                   f"level {level}: {get()} after inner block, expected {modes[level]}"))
+                            else:
+                                run_body()
+                            break
+                else:
+                    with core.sr.default_tensordot_mode(modes[level]):
+                        if get() != modes[level]:
+                            checks.append(("mode-inside-block", f"level {level}: {get()} != {modes[level]}"))
+                        if level + 1 < len(modes):
+                            r = nested(level + 1)
+                            if get() != modes[level]:
+                                checks.append(("mode-restored-after-inner-exit",
+                                               f"level {level}: {get()} after inner block, expected {modes[level]}"))
+                        else:
+                            r = run_body()
+                        if cfg["exit"] == "return":
+                            return r
+            finally:
+                now = get()
+                if now != before:
+                    checks.append(("mode-restored-on-exit",
+                                   f"level {level} exit={cfg['exit']}: default is {now!r}, was {before!r} before the block"))
+
+        core.sr.set_default_tensordot_mode(cfg["outer"])
+        if cfg["outer_none"]:
+            core.sr.set_default_tensordot_mode(None)
+            if get() != cfg["outer"]:
+                checks.append(("set-none-is-noop", f"{get()} after set(None), was {cfg['outer']}"))
+        nested(0)
+
+    def _one(self, st, crash_n):
+        core.world_reset()
+        checks = []
+        exc = None
+        fired = None
+        if crash_n:
+            t = inject.LineTracer(crash_at=crash_n, exclude=CM_FRAMES)
+        else:
+            t = inject.LineTracer(exclude=CM_FRAMES)
+        try:
+            with t:
+                self._scenario(st, checks)
+        except core.SimCrash as e:
+            exc = e
+            fired = t.fired
+        except UserError as e:
+            exc = e
+        except HarnessError:
+            raise
+        final = core.sr.get_default_tensordot_mode()
+        if final != st.config["outer"]:
+            checks.append(("mode-restored-after-scenario",
+                           f"default is {final!r} after the scenario, outer default was {st.config['outer']!r}"
+                           f" (exit={st.config['exit']}, crash={fired})"))
+        return t.count, fired, checks, exc
+
+    def finish(self, st):
+        cfg = st.config
+        if not st.body:
+            return
+        st.stats["step.ok"] += 3  # a scenario always makes progress
+        if cfg["exit"] != "crash":
+            total, fired, checks, exc = self._one(st, None)
+            st.stats["fault.exit." + cfg["exit"]] += 1
+            st.log.add("scenario", [cfg["exit"], total])
+            self._judge(st, checks)
+            return
+        total, _, checks, _ = self._one(st, None)
+        self._judge(st, checks)
+        if total == 0:
+            return
+        if cfg.get("all_points"):
+            points = range(1, total + 1)
+        else:
+            if "crash_n" not in cfg:
+                cfg["crash_n"] = 1 + int(cfg["crash"] * total)
+            points = [cfg["crash_n"]]
+        for n in points:
+            _, fired, checks, exc = self._one(st, n)
+            if fired is not None:
+                st.stats["fault.crash_in_body"] += 1
+                st.stats["crashsite." + fired[1]] += 1
+            st.log.add("crash", [n, list(fired) if fired else None])
+            if checks and cfg.get("all_points"):
+                cfg["all_points"] = False
+                cfg["crash_n"] = n
+            self._judge(st, checks)
+
+    def _judge(self, st, checks):
+        st.stats["oracle.scenarios"] += 1
+        for where, detail in checks:
+            self.report(st, "mode-context", where, detail, [st.config["exit"]])
+
+    def gate(self, stats, agg, tier):
+        probs = []
+        if agg["per_engine"].get(self.name, 0) >= 50:
+            for k in ("fault.crash_in_body", "fault.exit.exception", "oracle.mode_none_compared"):
+                if not stats.get(k):
+                    probs.append(f"c15b: reach probe {k} is zero")
+        return probs
+
+
+# ======================================================================
+# c15c — deterministic thread-interleaving simulation
+# ======================================================================
+
+import collections as _collections  # noqa: E402
+
+from .. import sched_threads as T  # noqa: E402
+
+THREAD_OPS = {
+    "fuse": 9, "unfuse": 3, "unfuse_all": 2, "reshape": 4, "tensordot": 8,
+    "to_dense": 2, "phase": 2, "conj": 3, "dagger": 2, "qr": 1, "svd": 1,
+    "unary": 1, "transpose": 3, "einsum": 1, "copy": 1, "align_axes": 1,
+    "svd_truncated": 1, "multiply_diagonal": 1, "matmul": 1, "arith2": 1,
+}
+
+_TIERS = None
+_WARM = False
+
+
+def _tiers():
+    global _TIERS
+    if _TIERS is None:
+        _TIERS = T.compute_hot_set()
+    return _TIERS
+
+
+def _warmup():
+    """Fill the lookup caches of autoray / singledispatch once per process,
+    untraced, so that traced runs do not depend on process history."""
+    global _WARM
+    if _WARM:
+        return
+    _WARM = True
+    eng = C15A(known=[])
+    for run in range(6):
+        try:
+            eng.generate(987654321, run, "quick")
+        except Exception:  # noqa: BLE001
+            pass
+
+
+class C15C(EngineBase):
+    prop = "C15"
+    name = "c15c"
+    share = 0.4
+    chunk = 10
+
+    def make_config(self, streams, tier):
+        r = streams.get("config")
+        kind = r.choice(["biased", "biased", "biased", "pct", "uniform"])
+        return {
+            "nthreads": r.choice([2, 2, 3, 3, 4]),
+            "nshared": r.choice([2, 3, 4, 5]),
+            "nops": r.choice([2, 3, 4, 6]),
+            "npool": r.choice([2, 3, 4]),
+            "p_pool": r.choice([0.5, 0.7, 0.9]),
+            "maxsize": r.choice([1, 1, 2, 3, 8192]),
+            "maxsectors": r.choice([512, 512, 4]),
+            "prewarm": r.random() < 0.4,
+            "policy": kind,
+            "p_a": r.choice([0.1, 0.3, 0.5]),
+            "p_b": r.choice([0.02, 0.1]),
+            "p_cold": r.choice([0.0005, 0.002]) if kind == "biased" else r.choice([0.002, 0.02]),
+            "pct_d": r.choice([1, 2, 3]),
+            "sched_seed": r.randrange(2**31),
+            "kinds": r.choice([["A", "F"], ["F"], ["A"]]),
+            "syms": r.choice([["Z2"], ["U1"], ["Z2Z2"], ["U1U1"], ["Z2", "U1"]]),
+            "sparsity": r.choice([0.0, 0.15, 0.4]),
+            "n_macro": 1,
+        }
+
+    def start(self, config):
+        _warmup()
+        core.world_reset(0, 512)
+        st = State()
+        st.config = config
+        st.shared = {}
+        st.shared_steps = []
+        st.tsteps = _collections.defaultdict(list)
+        st.ctx = None
+        st.states = set()
+        return st
+
+    # ------------------------------------------------------------ generate
+    def gen_macro(self, st, rng):
+        """The whole program is generated in one macro step, executing in a
+        sequential cold world (which is also the reference)."""
+        cfg = st.config
+        ctx = ops.Ctx(rng, kinds=tuple(cfg["kinds"]), syms=tuple(cfg["syms"]),
+                      p_inplace=0.0, sparsity=cfg["sparsity"], styles=False, max_heap=40)
+        ctx.weights = {k: v for k, v in THREAD_OPS.items()}
+        out = []
+        heap = {}
+        # shared values: fresh arrays and a few derived ones (views, fused,
+        # pending signs)
+        while len([n for n in heap if n.startswith("s")]) < cfg["nshared"]:
+            if heap and rng.random() < 0.4:
+                g = rng.choice([ops.g_transpose, ops.g_fuse, ops.g_conj, ops.g_phase])
+                steps = g(ctx, heap)
+            else:
+                steps = ops.g_new(ctx, heap)
+            if not steps:
+                continue
+            for s in steps:
+                s = dict(s, shared=True)
+                s["out"] = ["s" + o[1:] for o in s["out"]]
+                try:
+                    res = ops.run_step(s, heap)
+                except HarnessError:
+                    raise
+                except Exception:  # noqa: BLE001
+                    continue
+                ops.bind(s, heap, res)
+                out.append(s)
+        # pool of templates on shared values
+        pool = []
+        shared_heap = dict(heap)
+        tries = 0
+        while len(pool) < cfg["npool"] and tries < 40:
+            tries += 1
+            steps = ops.gen_steps(ctx, shared_heap)
+            if len(steps) == 1 and steps[0]["op"] not in ("new", "newvec", "del", "copy"):
+                pool.append(steps[0])
+        # per-thread programs, generated while executing sequentially
+        for tid in range(cfg["nthreads"]):
+            own = {}
+            ns = _collections.ChainMap(own, shared_heap)
+            k = 0
+            guard = 0
+            while k < cfg["nops"] and guard < 30:
+                guard += 1
+                if pool and rng.random() < cfg["p_pool"]:
+                    steps = [copy.deepcopy(rng.choice(pool))]
+                else:
+                    steps = ops.gen_steps(ctx, dict(ns))
+                for s in steps:
+                    if s["op"] == "del":
+                        continue
+                    s = dict(s, thread=tid)
+                    s["out"] = [f"t{tid}_{o}" if not o.startswith("t") else o for o in s["out"]]
+                    s.pop("shared", None)
+                    try:
+                        res = ops.run_step(s, ns)
+                        ops.bind(s, ns, res)
+                    except HarnessError:
+                        raise
+                    except Exception:  # noqa: BLE001
+                        pass
+                    out.append(s)
+                    k += 1
+        return out
+
+    # ------------------------------------------------------------- execute
+    def exec_step(self, st, step):
+        if step.get("shared"):
+            st.shared_steps.append(step)
+        elif "thread" in step:
+            st.tsteps[step["thread"]].append(step)
+
+    @staticmethod
+    def _build_shared(steps):
+        heap = {}
+        for s in steps:
+            if any(n not in heap for n in s.get("in", [])):
+                continue
+            try:
+                res = ops.run_step(s, heap)
+            except HarnessError:
+                raise
+            except Exception:  # noqa: BLE001
+                continue
+            ops.bind(s, heap, res)
+        return heap
+
+    @staticmethod
+    def _make_fn(steps, ns, results):
+        def fn():
+            for s in steps:
+                if any(n not in ns for n in s.get("in", [])):
+                    results.append(("skip",))
+                    continue
+                try:
+                    res = ops.run_step(s, ns)
+                except HarnessError:
+                    raise
+                except Exception as e:  # noqa: BLE001
+                    results.append(("raised", type(e).__name__, str(e)[:100]))
+                    continue
+                ops.bind(s, ns, res)
+                results.append(("ok", res))
+        return fn
+
+    def _reference(self, st):
+        """Each thread's program alone, sequentially, untraced, cold caches."""
+        ref = {}
+        for tid, steps in sorted(st.tsteps.items()):
+            core.world_reset(0, 512)
+            shared = self._build_shared(st.shared_steps)
+            res = []
+            self._make_fn(steps, _collections.ChainMap({}, shared), res)()
+            ref[tid] = [(r[0], S.snap(r[1])) if r[0] == "ok" else r for r in res]
+        return ref
+
+    def _concurrent(self, st, policy, instruction_level=True):
+        cfg = st.config
+        core.world_reset(cfg["maxsize"], cfg["maxsectors"])
+        shared = self._build_shared(st.shared_steps)
+        before = {n: S.snap(v) for n, v in shared.items()}
+        if cfg["prewarm"]:
+            for tid, steps in sorted(st.tsteps.items()):
+                for s in steps[:1]:
+                    if all(n in shared for n in s.get("in", [])):
+                        try:
+                            ops.run_step(s, shared)
+                        except HarnessError:
+                            raise
+                        except Exception:  # noqa: BLE001
+                            pass
+        tids = sorted(st.tsteps)
+        results = {tid: [] for tid in tids}
+        fns = [self._make_fn(st.tsteps[tid], _collections.ChainMap({}, shared), results[tid])
+               for tid in tids]
+        baton = T.Baton(fns, policy, _tiers(), instruction_level=instruction_level)
+        baton.run()
+        return baton, shared, before, {tid: results[tid] for tid in tids}
+
+    def _policy(self, st, hot_events=None):
+        cfg = st.config
+        sch = cfg.get("schedule")
+        if sch is not None:
+            return T.Policy("recorded", recorded={int(p): t for p, t in sch["switches"]},
+                            recorded_exits=sch["exits"])
+        rng = random.Random(cfg["sched_seed"])
+        if cfg["policy"] == "pct":
+            pts = set()
+            if hot_events:
+                for _ in range(cfg["pct_d"]):
+                    pts.add(rng.randint(1, hot_events))
+            return T.Policy("pct", rng=rng, pct_points=pts)
+        if cfg["policy"] == "uniform":
+            return T.Policy("uniform", rng=rng, p_a=cfg["p_cold"], p_b=cfg["p_cold"],
+                            p_cold=cfg["p_cold"])
+        return T.Policy("biased", rng=rng, p_a=cfg["p_a"], p_b=cfg["p_b"], p_cold=cfg["p_cold"])
+
+    def finish(self, st):
+        cfg = st.config
+        if not st.tsteps or len(st.tsteps) < 2:
+            return
+        ref = self._reference(st)
+        hot = None
+        if cfg["policy"] == "pct" and cfg.get("schedule") is None:
+            dry, _, _, _ = self._concurrent(st, T.Policy("sequential"))
+            hot = dry.hot_points
+        policy = self._policy(st, hot)
+        baton, shared, before, results = self._concurrent(st, policy)
+        st.schedule = {"switches": [[p, t] for p, t in baton.switches],
+                       "exits": baton.exit_picks if policy.kind != "recorded" else cfg["schedule"]["exits"]}
+        st.stats["sched.points"] += baton.point
+        st.stats["sched.hot_points"] += baton.hot_points
+        st.stats["fault.preemption"] += len(baton.switches)
+        st.stats["sched.policy." + cfg["policy"]] += 1
+        hot_sw = 0
+        for name, where in baton.switch_sites:
+            st.states.add(f"{name}:{where}")
+            if where < 0:
+                hot_sw += 1
+        st.stats["reach.switch_at_instruction"] += hot_sw
+        st.stats["cache.hit"] += AC._fi_hit
+        st.stats["cache.miss"] += AC._fi_missed
+        st.stats["step.ok"] += sum(1 for r in results.values() for x in r if x[0] == "ok")
+        st.log.add("schedule", [baton.point, st.schedule["switches"][:50], st.schedule["exits"]])
+        # oracle 3: shared values untouched
+        for n, s0 in before.items():
+            s1 = S.snap(shared[n])
+            if s1 != s0:
+                self.report(st, "threads-shared-unchanged", "shared",
+                            f"shared value {n} changed in {S.diff_field(s0, s1)} under interleaving", [])
+        # oracles 1 + 2: per-thread results equal the sequential reference
+        for tid in sorted(results):
+            got = results[tid]
+            exp = ref[tid]
+            if len(got) != len(exp):
+                self.report(st, "threads-equal-sequential", "program",
+                            f"thread {tid} produced {len(got)} results, reference {len(exp)}", [])
+                continue
+            for k, (g, e) in enumerate(zip(got, exp)):
+                op = st.tsteps[tid][k]["op"]
+                if g[0] != e[0] or (g[0] == "raised" and g[1] != e[1]):
+                    self.report(st, "threads-equal-sequential", op,
+                                f"thread {tid} step {k}: sequential {e[:2] if e[0] != 'ok' else 'ok'} "
+                                f"but interleaved {g[:3] if g[0] != 'ok' else 'ok'}", ["raise-mismatch"])
+                    continue
+                if g[0] == "ok":
+                    st.stats["oracle.compared"] += 1
+                    why = S.snap_close(e[1], S.snap(g[1]))
+                    if why:
+                        self.report(st, "threads-equal-sequential", op,
+                                    f"thread {tid} step {k}: differs from sequential: {why}", ["value"])
+            st.log.add("thread-done", [tid, [g[0] for g in got]])
+
+    # the schedule is part of the replay file
+    def _outcome(self, st, violation):
+        out = super()._outcome(st, violation)
+        out["schedule"] = getattr(st, "schedule", None)
+        return out
+
+    def generate(self, seed, run, tier="quick"):
+        program, out = super().generate(seed, run, tier)
+        if out.get("schedule") is not None:
+            program["config"] = dict(program["config"], schedule=out["schedule"])
+        return program, out
+
+    def strip(self, program):
+        cfg = {k: v for k, v in program["config"].items() if k != "schedule"}
+        return dict(program, config=cfg)
+
+    def seal(self, program):
+        p = self.strip(program)
+        out = self.execute(p)
+        if out.get("schedule") is not None:
+            p["config"] = dict(p["config"], schedule=out["schedule"])
+        return p, out
+
+    def gate(self, stats, agg, tier):
+        probs = []
+        if agg["per_engine"].get(self.name, 0) >= 30:
+            for k in ("fault.preemption", "reach.switch_at_instruction", "cache.hit"):
+                if not stats.get(k):
+                    probs.append(f"c15c: reach probe {k} is zero")
+        return probs
